@@ -108,8 +108,10 @@ def tool_part(run):
     d = os.path.join(run.wd, "files")
     os.makedirs(d, exist_ok=True)
     lines, obs = [], []
-    variants = [(n, via) for n in ([0, 1, 5, 9, 12, 13, 40] if not run.thorough else range(0, 41)) for via in ("file", "stdin")]
-    for n, via in variants:
+    variants = [(n, via, "") for n in ([0, 1, 5, 9, 12, 13, 40] if not run.thorough else range(0, 41)) for via in ("file", "stdin")]
+    # a supplied schema: --autosql FILE / -a FILE / the UCSC spelling -as=FILE, from a file and from stdin
+    variants += [(n, via, flag) for n in (1, 4) for via in ("file", "stdin") for flag in ("--autosql", "-a", "-as=")]
+    for n, via, flag in variants:
         bed = os.path.join(d, "n%d.bed" % n)
         with open(bed, "w") as f:
             for i in range(3):
@@ -117,10 +119,17 @@ def tool_part(run):
         sizes = os.path.join(d, "n.sizes")
         open(sizes, "w").write("chrAa\t100\n")
         bb = os.path.join(d, "n%d.bb" % n)
+        extra, schema = [], None
+        if flag:
+            schema = 'table supplied%d\n"g\u00e9ne \u540d\u524d; (x)"\n(\nstring chrom; "c"\nuint chromStart; "s"\nuint   chromEnd;\t"e"\n%s)\n' % (
+                n, "".join('string f%d; "extra %d"\n' % (j, j) for j in range(n)))
+            sp = os.path.join(d, "s%d.as" % n)
+            open(sp, "w", encoding="utf-8").write(schema)
+            extra = [flag + sp] if flag.endswith("=") else [flag, sp]
         if via == "stdin":
-            rc, _, err = cf.run_tool(tdir, "own", "bedtobigbed", ["-", sizes, bb, "-t", "1"], stdin=open(bed, "rb").read())
+            rc, _, err = cf.run_tool(tdir, "own", "bedtobigbed", ["-", sizes, bb, "-t", "1"] + extra, stdin=open(bed, "rb").read())
         else:
-            rc, _, err = cf.run_tool(tdir, "own", "bedtobigbed", [bed, sizes, bb, "-t", "1"])
+            rc, _, err = cf.run_tool(tdir, "own", "bedtobigbed", [bed, sizes, bb, "-t", "1"] + extra)
         rc2, out, err2 = cf.run_tool(tdir, "own", "bigbedinfo", [bb, "--autosql"]) if rc == 0 else (1, "", "")
         rc3, info, _ = cf.run_tool(tdir, "own", "bigbedinfo", [bb]) if rc == 0 else (1, "", "")
         fc = -1
@@ -136,16 +145,24 @@ def tool_part(run):
                 q = not q
             elif ch == ";" and not q:
                 sem += 1
-        o = {"kind": "bed", "counts": [], "hfc": 3 + n, "n": n, "via": via,
+        o = {"kind": "bed", "counts": [], "hfc": 3 + n, "n": n, "via": via, "flag": flag,
              "obs": {"result": "ok" if rc == 0 and rc2 == 0 else "writeerr", "ans": {"result": "accept", "counts": [sem]}, "storedFields": sem, "verbatim": 1, "headerCount": fc}}
+        if flag:
+            # judged like a valid supplied schema: accepted, declared fields, stored verbatim (what bigbedinfo --autosql prints), header field count
+            o["kind"], o["counts"] = "valid", [3 + n]
+            # bigbedinfo --autosql prints the stored text between the "as:" line and the "basesCovered:" line
+            a, b_ = out.find("as:\n"), out.find("basesCovered:")
+            stored = out[a + 4:b_] if a >= 0 and b_ > a else ""
+            o["obs"]["verbatim"] = 1 if stored.rstrip("\n") == schema.rstrip("\n") else 0
+            o["obs"]["err"] = (err + err2)[-200:]
         obs.append(o)
         lines.append(json.dumps(o, separators=(",", ":")))
-        run.count_case("tool n=%d %s" % (n, via), True)
+        run.count_case("tool n=%d %s %s" % (n, via, flag), True)
     bad = validate_obs("Obs_AutoSql", "Obs.cfg", lines, run.wd, "tool", shards=1)
     run.cov["traces_validated_against_impl"] += len(obs)
     for i, tag in bad:
         o = obs[i]
-        run.violation("C19 bedtobigbed without --autosql (input via %s), %d extra columns: %s -> %s" % (o["via"], o["n"], tag, json.dumps(o["obs"])),
+        run.violation("C19 bedtobigbed %s (input via %s), %d extra columns: %s -> %s" % (("with " + o["flag"]) if o.get("flag") else "without --autosql", o["via"], o["n"], tag, json.dumps(o["obs"])),
                       {"kind": "autosql-tool", "tag": tag, "n": o["n"], "obs": o["obs"]})
 
 
